@@ -147,4 +147,7 @@ theorem flush_page_fits (env : Env) (cfg : Cfg) (e e' : Eng) (out : Bytes) (n : 
   · have : e.execd = false := by cases h' : e.execd <;> simp_all
     simp [this, EM.fail] at h
 
+/-- non-vacuity: an engine configured with an output size of 20 has it in its renderer -/
+example : outSz (newVmSt { outputSize := 20 } (St.new 0) (Cache.new 0) {}) = some 20 := by decide
+
 end Vise.C01
